@@ -416,8 +416,42 @@ def run(ctx, rep):
                           "the journal gets a hole while offsets, returned segments and the acknowledgement assume a complete write",
                           where=g.where(n))
     write_nodes = [n for n in write_nodes if not cmatch(g.term(n), PARTIAL)]
+    FWD_ADAPTORS = r"iter::Iterator>?::(for_each|try_for_each)$"
+
+    def adaptor_loops(targets):
+        """a forward adaptor that runs a closure once per element is a loop: head = the adaptor call, body = the closure's instance (with
+        everything inlined into it), element = the closure's parameter"""
+        out = []
+        for t_ in targets:
+            i = g.inst(t_)
+            chain_ = []
+            while i is not None:
+                chain_.append(i)
+                i = i.parent
+            for ci in chain_:
+                if ci.parent is None or ci.call_bb is None:
+                    continue
+                cn = (ci.parent.id, ci.call_bb)
+                tt = g.term(cn)
+                if tt["k"] == "call" and cn not in g.callee_inst and cmatch(tt, FWD_ADAPTORS) and ci in g.closure_insts.get(cn, []):
+                    ids = set()
+                    stack = [ci]
+                    while stack:
+                        x = stack.pop()
+                        ids.add(x.id)
+                        stack.extend(y for y in g.insts if y.parent is x)
+                    body = {n for n in g.nodes if n[0] in ids}
+                    out.append((cn, body, ci))
+                    break
+        return out
+
     wloops = loops_containing(write_nodes)
     sloops = loops_containing(send_nodes)
+    w_ad = adaptor_loops(write_nodes) if not wloops else []
+    s_ad = adaptor_loops(send_nodes) if not sloops else []
+    wloops = wloops or [(cn, body) for cn, body, ci in w_ad]
+    sloops = sloops or [(cn, body) for cn, body, ci in s_ad]
+    ad_inst = {cn: ci for cn, body, ci in (w_ad + s_ad)}
     if not rep.expect("R04.2", "write-loop", len(wloops) >= 1, "no loop around the worker's write_all found"):
         return
     if not rep.expect("R04.4", "callback-loop", len(sloops) >= 1, "no loop around Callback::send found"):
@@ -425,8 +459,8 @@ def run(ctx, rep):
     # innermost loops
     wl = min(wloops, key=lambda x: len(x[1]))
     sl = min(sloops, key=lambda x: len(x[1]))
-    batch_w = strip_ids(event_args(g, wl[0])[0])
-    batch_s = strip_ids(event_args(g, sl[0])[0])
+    batch_w = strip_ids(canon_vars(g, event_args(g, wl[0])[0]))
+    batch_s = strip_ids(canon_vars(g, event_args(g, sl[0])[0]))
 
     def skips_only_empty_data(e):
         """`X.iter().filter(|w| !w.data.is_empty())`: the adaptor drops exactly the elements the plain loop would skip"""
@@ -459,7 +493,8 @@ def run(ctx, rep):
                where=g.where(wl[0]))
     # the loops iterate the vector itself (no skip/take/filter/rev adaptor survives provenance erasure)
     for nm, (nn, _b), bx in (("write", wl, batch_w), ("callback", sl, batch_s)):
-        if bx[0] == "call" and re.search(r"Vec::<T(, A)?>::(with_capacity|new)$|vec::from_elem", bx[1]) or bx[0] == "var":
+        if bx[0] == "call" and re.search(r"Vec::<T(, A)?>::(with_capacity|new)$|vec::from_elem", bx[1]) or bx[0] == "var" \
+                or (bx[0] == "field" and isinstance(bx[1], tuple) and bx[1] and bx[1][0] == "var"):     # a field of a local bundle of loop state
             rep.ok("R04.6", "%s loop iterates the whole batch" % nm, expr_s(bx), where=g.where(nn))
         else:
             rep.violation("R04.6", "%s|%s-loop-iterates-%s" % (ENT, nm, expr_s(bx)), "%s loop" % nm,
@@ -469,19 +504,40 @@ def run(ctx, rep):
     def elem_of(nn):
         return ("okval", strip_ids(("call", cpath(g.term(nn)), tuple(event_args(g, nn)))))
 
+    def is_elem_of(e, nn):
+        """is e the element of the loop headed by nn: okval(next(<that iterator>)), or the parameter of the closure an adaptor runs"""
+        if nn in ad_inst:
+            return isinstance(e, tuple) and len(e) == 3 and e[0] == "cl_arg" and e[1] == ad_inst[nn].id
+        return isinstance(e, tuple) and e and e[0] == "okval" and call_is(e[1], r"Iterator>?::next$") \
+            and strip_ids(call_arg(e[1], 0)) == strip_ids(event_args(g, nn)[0])
+
     def is_elem_data(e, nn):
         e = strip_ids(e)
-        return is_field(e, "data") and e[1][0] == "okval" and call_is(e[1][1], r"Iterator>?::next$") \
-            and strip_ids(call_arg(e[1][1], 0)) == strip_ids(event_args(g, nn)[0])
+        return is_field(e, "data") and is_elem_of(e[1], nn)
+
+    def body_starts(nn):
+        if nn in ad_inst:
+            return P.pnodes_of([(ad_inst[nn].id, 0)])
+        return learned_targets(P, lambda o, v: origin_call(o) == nn and v in OKV)
+
+    def at_head(n, nn, body):
+        """has the walk left the body of the current element (back at the head / re-entering the closure / out of the loop)?"""
+        if nn in ad_inst:
+            return n not in body
+        return n == nn
 
     nn = wl[0]
-    starts = learned_targets(P, lambda o, v: origin_call(o) == nn and v in OKV)
+    starts = body_starts(nn)
     rep.expect("R04.2", "write-loop-body-entry", bool(starts), "cannot find the Some edge of the write loop's next()")
+    wbody = wl[1]
+    wentry = (ad_inst[nn].id, 0) if nn in ad_inst else None
 
     def step2(ms, pi, qi, learn):
         n = P.gnode(pi)
-        if n == nn:
-            return None
+        if ms != "S" and (at_head(n, nn, wbody) or n == wentry):
+            return None          # one element's walk ends at the head / when the closure is entered again / outside the loop
+        if ms == "S":
+            ms = False
         if n in write_set:
             a = event_args(g, n)
             if len(a) > 1 and is_elem_data(a[1], nn):
@@ -493,8 +549,11 @@ def run(ctx, rep):
                 ms = True
         return ms
 
-    seen2 = run_monitor(P, False, step2, starts=starts)
-    bad = [(pi, ms) for (pi, ms) in seen2 if P.gnode(pi) == nn and not ms]
+    seen2 = run_monitor(P, "S", step2, starts=starts)
+    if nn in ad_inst:
+        bad = [(pi, ms) for (pi, ms) in seen2 if ms is False and (P.gnode(pi) == wentry or P.gnode(pi) not in wbody)]
+    else:
+        bad = [(pi, ms) for (pi, ms) in seen2 if P.gnode(pi) == nn and ms is False]
     if bad:
         rep.violation("R04.2", "%s|batch-element-not-written" % ENT, "write loop",
                       "a path through the write loop reaches the next element without writing this element's data "
@@ -529,17 +588,33 @@ def run(ctx, rep):
 
     # ---------------- R04.4 -------------------------------------------------------------
     nn4 = sl[0]
-    starts4 = learned_targets(P, lambda o, v: origin_call(o) == nn4 and v in OKV)
+    starts4 = body_starts(nn4)
     rep.expect("R04.4", "callback-loop-body-entry", bool(starts4), "cannot find the Some edge of the callback loop's next()")
+    sbody = sl[1]
+    sentry = (ad_inst[nn4].id, 0) if nn4 in ad_inst else None
 
     def is_elem_cb(e):
         e = strip_ids(e)
-        return is_field(e, "callback") and e[1][0] == "okval" and call_is(e[1][1], r"Iterator>?::next$")
+        if not is_field(e, "callback"):
+            return False
+        if nn4 in ad_inst:
+            return is_elem_of(e[1], nn4)
+        return e[1][0] == "okval" and call_is(e[1][1], r"Iterator>?::next$")
 
     def step4(ms, pi, qi, learn):
+        need, sent, fresh = ms
+        n = P.gnode(pi)
+        if not fresh and (at_head(n, nn4, sbody) or n == sentry):
+            return None
+        fresh = False
+        ms = (need, sent)
+        ms = _step4(ms, pi, qi, learn)
+        return None if ms is None else (ms[0], ms[1], fresh)
+
+    def _step4(ms, pi, qi, learn):
         need, sent = ms
         n = P.gnode(pi)
-        if n == nn4:
+        if False:
             return None
         if n in send_set:
             sent = min(sent + 1, 2)
@@ -549,12 +624,14 @@ def run(ctx, rep):
                 need = True
         return (need, sent)
 
-    seen4 = run_monitor(P, (False, 0), step4, starts=starts4)
-    # ends: back at loop head, or any node outside the body (loop exit by break/return)
+    seen4 = run_monitor(P, (False, 0, True), step4, starts=starts4)
+    # ends: back at loop head, or any node outside the body (loop exit by break/return); for an adaptor: the closure is entered again
     bad4 = None
     for (pi, ms) in seen4:
         n = P.gnode(pi)
-        at_end = (n == nn4) or (n not in sl[1] and n != nn4)
+        if ms[2]:
+            continue
+        at_end = (n == nn4) or (n not in sl[1] and n != nn4) or (sentry is not None and n == sentry)
         if at_end and ((ms[0] and ms[1] != 1) or ms[1] > 1):
             bad4 = (pi, ms)
             break
@@ -587,7 +664,7 @@ def run(ctx, rep):
         if a and (strip_ids(a[0]) == batch_s or contains(strip_ids(a[0]), lambda x: x == batch_s)):
             rep.violation("R04.6", "%s|reorder:%s" % (ENT, cpath(g.term(n)).split("::")[-1]), cpath(g.term(n)),
                           "the batch is reordered/shortened before callbacks are sent", where=g.where(n))
-    pushes = [n for n in g.call_nodes(r"Vec::<T, A>::push$") if strip_ids(event_args(g, n)[0]) == batch_s]
+    pushes = [n for n in g.call_nodes(r"Vec::<T, A>::push$") if strip_ids(canon_vars(g, event_args(g, n)[0])) == batch_s]
     rep.floor("R04.6", "pushes into the batch", len(pushes), 2)
     for n in pushes:
         v = event_args(g, n)[1]
